@@ -787,6 +787,8 @@ def run(run):
         run.broken('LOOPLIMIT', 'highpassed() only beyond the high-water slot (adjustSlot interpreted)', str(ex), '')
     advidx(run, fx)
     derived(run, fx)
+    from . import c19 as c19_
+    c19_.poolsize(run, fx)           # gr_slot_attr / rule code reading or writing a justification value stays inside the slot's record (shared with C19)
     inst_ = 'newSlot: the free list is exactly the rest of the new block (interpreted)'
     ns_ = fx.one('graphite2::Segment::newSlot')
     try:
